@@ -11,8 +11,8 @@
 // Small API:
 //
 //	t := polycut.Catalogue()[i]           // a validated ground truth
-//	cfgs := polycut.Configs(t)            // every cut set x piece direction
-//	orders := polycut.Orders(t, cfg, 5)   // member orders
+//	cfgs := polycut.Configs(t, 0)         // every cut set x piece direction
+//	orders := polycut.Orders(cfg, 5)      // member orders
 //	b := polycut.Build(t, c, opts)        // *osm.OSM + relation + per member truth
 //	m := polycut.Compare(t, geometry)     // nil when geometry == ground truth
 //	t, c := polycut.Example()             // one fixed non-trivial case (for C17)
